@@ -378,6 +378,9 @@ func (e *Engine) mergeStates(fork *node, forkKnown *knownSet, arr []*State) *Sta
 						conds = append(conds, c)
 					}
 				}
+				if os.Getenv("GOVC_DEBUGM") != "" {
+					fmt.Fprintf(os.Stderr, "merge name %s isSnap=%v have=%d\n", k, isSnap, len(have))
+				}
 				if !isSnap || len(have) == 0 {
 					delete(f.names, k)
 					delete(f.nameAddr, k)
